@@ -1,6 +1,1807 @@
-//! C03 — monitor not built yet.
-use crate::core::Ctx;
+//! C03 — ciphertext integrity: a modified SEIPD (v1 / v2) container never decrypts cleanly.
+//!
+//! Messages are built with a known session key (library builder, cross-checked with the
+//! independent reference decryptor, plus some containers made by the reference encryptor).
+//! Only the SEIPD packet is tampered: every single-bit flip, every other value of the one-octet
+//! header fields, truncation at every offset (re-framed and raw), appended bytes inside the
+//! container, AEAD chunk drop / duplicate / permute / tag swaps, CFB block splices, header
+//! (tag / declared length) changes. The tampered message is decrypted with the RIGHT session key
+//! through `Message::decrypt_with_session_key` / `decrypt_the_ring` (SEIPDv1 read modes) and
+//! through `pgp::packet::StreamDecryptor::{v1,v2}` directly, and drained with every consumer
+//! pattern. Required: an `Err` before the end of the stream; released bytes empty (SEIPDv1
+//! CheckFirst) or a prefix of the true plaintext (SEIPDv2).
+
+use std::borrow::Cow;
+use std::collections::{BTreeMap, BTreeSet};
+use std::io::{self, BufRead, Read};
+
+use pgp::composed::{DecryptionOptions, Message, MessageBuilder, PlainSessionKey, TheRing};
+use pgp::crypto::aead::{AeadAlgorithm, ChunkSize};
+use pgp::crypto::sym::SymmetricKeyAlgorithm;
+use pgp::packet::{StreamDecryptor, SymEncryptedProtectedDataConfig};
+use pgp::types::Seipdv1ReadMode;
+use rand::{Rng, RngCore, SeedableRng};
+use rand_chacha::ChaCha8Rng;
+use serde_json::json;
+
+use crate::core::{self, describe_case, hexs, Ctx};
+use crate::hooks::{self, Ev};
+use crate::rfc;
+use crate::rfc::frame::LenForm;
+use crate::shim::{drain, Consume, Drained, Sched};
+
+// ------------------------------------------------------------------------------------------
+// configurations and base messages
+
+#[derive(Clone, Copy, PartialEq, Eq, Debug, Hash)]
+enum Cfg {
+    V1 { alg: u8 },
+    V2 { sym: u8, aead: u8, co: u8 },
+}
+
+impl Cfg {
+    fn fam(&self) -> &'static str {
+        match self {
+            Cfg::V1 { .. } => "v1",
+            Cfg::V2 { .. } => "v2",
+        }
+    }
+    fn label(&self) -> String {
+        match self {
+            Cfg::V1 { alg } => format!("v1-{}", sym_name(*alg)),
+            Cfg::V2 { sym, aead, co } => format!(
+                "v2-{}-{}-c{}",
+                sym_name(*sym),
+                ["?", "eax", "ocb", "gcm"][(*aead as usize).min(3)],
+                64usize << *co
+            ),
+        }
+    }
+    fn key_len(&self) -> usize {
+        match self {
+            Cfg::V1 { alg } => rfc::sym::key_size(*alg).unwrap_or(16),
+            Cfg::V2 { sym, .. } => rfc::sym::key_size(*sym).unwrap_or(16),
+        }
+    }
+    fn chunk(&self) -> usize {
+        match self {
+            Cfg::V1 { .. } => 0,
+            Cfg::V2 { co, .. } => 64usize << *co,
+        }
+    }
+}
+
+fn sym_name(a: u8) -> &'static str {
+    match a {
+        1 => "idea",
+        2 => "3des",
+        3 => "cast5",
+        4 => "blowfish",
+        7 => "aes128",
+        8 => "aes192",
+        9 => "aes256",
+        10 => "twofish",
+        11 => "camellia128",
+        12 => "camellia192",
+        13 => "camellia256",
+        _ => "?",
+    }
+}
+
+/// SEIPDv1 read modes (for v2 only `Default` is used: the mode does not apply)
+#[derive(Clone, Copy, PartialEq, Eq, Debug, Hash)]
+enum Mode {
+    /// `decrypt_with_session_key`, i.e. CheckFirst with the default 1 GiB limit
+    Default,
+    /// CheckFirst with `max_message_size` = exactly the ciphertext length of the untampered message
+    CheckFirstExact,
+    Streaming,
+}
+
+impl Mode {
+    fn name(&self) -> &'static str {
+        match self {
+            Mode::Default => "checkfirst-default",
+            Mode::CheckFirstExact => "checkfirst-exact-limit",
+            Mode::Streaming => "streaming",
+        }
+    }
+    fn check_first(&self) -> bool {
+        !matches!(self, Mode::Streaming)
+    }
+}
+
+#[derive(Clone, Copy, PartialEq, Eq, Debug, Hash)]
+enum Framing {
+    Fixed,
+    Partial,
+    /// reference-built container of an arbitrary inner stream; StreamDecryptor level only
+    DirectOnly,
+}
+
+struct Base {
+    id: u32,
+    cfg: Cfg,
+    framing: Framing,
+    key: Vec<u8>,
+    payload: Vec<u8>,
+    /// the whole message (= exactly one SEIPD packet)
+    msg: Vec<u8>,
+    /// SEIPD packet body (version octet first)
+    body: Vec<u8>,
+    /// msg.len() - body.len() for fixed framing
+    hdr_len: usize,
+    /// true inner packet stream (reference decryption)
+    inner: Vec<u8>,
+    /// structural regions of `body`: (start, end, name)
+    regions: Vec<(usize, usize, &'static str)>,
+    /// v2: byte ranges of the chunk records (ciphertext+tag) and of the final tag
+    chunks: Vec<(usize, usize)>,
+    size_class: String,
+    /// set when the independent reference could not read the untampered container
+    ref_note: Option<String>,
+}
+
+impl Base {
+    fn fam(&self) -> &'static str {
+        self.cfg.fam()
+    }
+    fn session_key(&self) -> PlainSessionKey {
+        match self.cfg {
+            Cfg::V1 { alg } => PlainSessionKey::V3_4 {
+                sym_alg: SymmetricKeyAlgorithm::from(alg),
+                key: self.key.clone().into(),
+            },
+            Cfg::V2 { .. } => PlainSessionKey::V6 {
+                key: self.key.clone().into(),
+            },
+        }
+    }
+    fn lib_mode(&self, mode: Mode) -> Seipdv1ReadMode {
+        match mode {
+            Mode::Default => Seipdv1ReadMode::default(),
+            Mode::CheckFirstExact => Seipdv1ReadMode::CheckFirst {
+                max_message_size: self.body.len().saturating_sub(1),
+            },
+            Mode::Streaming => Seipdv1ReadMode::Streaming,
+        }
+    }
+    fn label(&self) -> String {
+        format!("{}/{}/{:?}/id{}", self.cfg.label(), self.size_class, self.framing, self.id)
+    }
+    fn mode_name(&self, mode: Mode) -> &'static str {
+        match self.cfg {
+            Cfg::V1 { .. } => mode.name(),
+            Cfg::V2 { .. } => "seipdv2",
+        }
+    }
+    fn region_of(&self, off: usize) -> &'static str {
+        for (s, e, n) in &self.regions {
+            if off >= *s && off < *e {
+                return n;
+            }
+        }
+        "?"
+    }
+    fn modes(&self) -> &'static [Mode] {
+        match self.cfg {
+            Cfg::V1 { .. } => &[Mode::Default, Mode::CheckFirstExact, Mode::Streaming],
+            Cfg::V2 { .. } => &[Mode::Default],
+        }
+    }
+}
+
+/// payload length such that the literal packet (empty name) has total length `t`
+fn payload_for_inner(t: usize) -> Option<usize> {
+    if t >= 8 && t - 8 + 6 < 192 {
+        return Some(t - 8);
+    }
+    if t >= 9 && (192..8384).contains(&(t - 9 + 6)) {
+        return Some(t - 9);
+    }
+    if t >= 12 && t - 12 + 6 >= 8384 {
+        return Some(t - 12);
+    }
+    None
+}
+
+fn build_with_library(
+    cfg: Cfg,
+    payload: &[u8],
+    key: &[u8],
+    mut rng: ChaCha8Rng,
+    partial: Option<u32>,
+) -> Result<Vec<u8>, String> {
+    let e = |e: pgp::errors::Error| e.to_string();
+    match (cfg, partial) {
+        (Cfg::V1 { alg }, None) => {
+            let mut b = MessageBuilder::from_bytes("", payload.to_vec())
+                .seipd_v1(&mut rng, SymmetricKeyAlgorithm::from(alg));
+            b.set_session_key(key.to_vec().into()).map_err(e)?;
+            b.to_vec(&mut rng).map_err(e)
+        }
+        (Cfg::V1 { alg }, Some(p)) => {
+            let mut b = MessageBuilder::from_reader("", payload)
+                .seipd_v1(&mut rng, SymmetricKeyAlgorithm::from(alg));
+            b.partial_chunk_size(p).map_err(e)?;
+            b.set_session_key(key.to_vec().into()).map_err(e)?;
+            b.to_vec(&mut rng).map_err(e)
+        }
+        (Cfg::V2 { sym, aead, co }, None) => {
+            let cs = ChunkSize::try_from(co).map_err(|_| "chunk size".to_string())?;
+            let mut b = MessageBuilder::from_bytes("", payload.to_vec()).seipd_v2(
+                &mut rng,
+                SymmetricKeyAlgorithm::from(sym),
+                AeadAlgorithm::from(aead),
+                cs,
+            );
+            b.set_session_key(key.to_vec().into()).map_err(e)?;
+            b.to_vec(&mut rng).map_err(e)
+        }
+        (Cfg::V2 { sym, aead, co }, Some(p)) => {
+            let cs = ChunkSize::try_from(co).map_err(|_| "chunk size".to_string())?;
+            let mut b = MessageBuilder::from_reader("", payload).seipd_v2(
+                &mut rng,
+                SymmetricKeyAlgorithm::from(sym),
+                AeadAlgorithm::from(aead),
+                cs,
+            );
+            b.partial_chunk_size(p).map_err(e)?;
+            b.set_session_key(key.to_vec().into()).map_err(e)?;
+            b.to_vec(&mut rng).map_err(e)
+        }
+    }
+}
+
+fn regions_and_chunks(
+    cfg: Cfg,
+    body: &[u8],
+    inner_len: usize,
+) -> Result<(Vec<(usize, usize, &'static str)>, Vec<(usize, usize)>), String> {
+    let n = body.len();
+    match cfg {
+        Cfg::V1 { alg } => {
+            let bs = rfc::sym::block_size(alg).ok_or("block size")?;
+            if n != 1 + bs + 2 + inner_len + 22 {
+                return Err(format!("v1 layout: body {} != 1+{}+2+{}+22", n, bs, inner_len));
+            }
+            Ok((
+                vec![
+                    (0, 1, "version"),
+                    (1, 1 + bs + 2, "prefix"),
+                    (1 + bs + 2, n - 22, "data"),
+                    (n - 22, n - 21, "mdc-tag"),
+                    (n - 21, n - 20, "mdc-len"),
+                    (n - 20, n, "mdc-hash"),
+                ],
+                vec![],
+            ))
+        }
+        Cfg::V2 { co, .. } => {
+            let c = 64usize << co;
+            let nch = inner_len.div_ceil(c);
+            if n != 36 + inner_len + 16 * nch + 16 {
+                return Err(format!("v2 layout: body {} != 36+{}+16*{}+16", n, inner_len, nch));
+            }
+            let mut r = vec![
+                (0, 1, "version"),
+                (1, 2, "cipher"),
+                (2, 3, "aead"),
+                (3, 4, "chunk-size"),
+                (4, 36, "salt"),
+            ];
+            let mut ch = vec![];
+            let mut p = 36;
+            for i in 0..nch {
+                let l = c.min(inner_len - i * c);
+                r.push((p, p + l, "chunk-ct"));
+                r.push((p + l, p + l + 16, "chunk-tag"));
+                ch.push((p, p + l + 16));
+                p += l + 16;
+            }
+            r.push((p, p + 16, "final-tag"));
+            ch.push((p, p + 16));
+            Ok((r, ch))
+        }
+    }
+}
+
+fn size_class(cfg: Cfg, inner_len: usize) -> String {
+    match cfg {
+        Cfg::V2 { .. } => {
+            let c = cfg.chunk();
+            if inner_len < c.saturating_sub(1) {
+                return format!("{inner_len}B");
+            }
+            let k = (inner_len + 1) / c;
+            let d = inner_len as i64 - (k * c) as i64;
+            match d {
+                0 => format!("{k}c"),
+                d if d > 0 => format!("{k}c+{d}"),
+                d => format!("{k}c{d}"),
+            }
+        }
+        Cfg::V1 { .. } => {
+            // relative to the 8192-byte internal buffer (data + MDC)
+            let t = inner_len + 22;
+            if t + 64 < 8192 {
+                return format!("{inner_len}B");
+            }
+            let k = (t + 64) / 8192;
+            let d = t as i64 - (k * 8192) as i64;
+            match d {
+                0 => format!("{k}buf"),
+                d if d > 0 => format!("{k}buf+{d}"),
+                d => format!("{k}buf{d}"),
+            }
+        }
+    }
+}
+
+/// Builds one base with the library builder and cross-checks it with the reference.
+fn make_base(
+    ctx: &Ctx,
+    id: u32,
+    cfg: Cfg,
+    payload_len: usize,
+    partial: Option<u32>,
+) -> Result<Base, String> {
+    let mut rng = ctx.rng("base", id as u64);
+    let mut key = vec![0u8; cfg.key_len()];
+    rng.fill_bytes(&mut key);
+    let mut payload = vec![0u8; payload_len];
+    rng.fill_bytes(&mut payload);
+    let msg = build_with_library(cfg, &payload, &key, rng, partial)?;
+    let pk = rfc::frame::deframe(&msg).map_err(|e| format!("reference deframe: {e}"))?;
+    if pk.len() != 1 || pk[0].tag != 18 {
+        return Err(format!("expected a single SEIPD packet, got {} packets", pk.len()));
+    }
+    let body = pk[0].body.clone();
+    let is_partial = !pk[0].partial_chunks.is_empty();
+    if partial.is_none() && is_partial {
+        return Err("unexpected partial framing".into());
+    }
+    let reference = match cfg {
+        Cfg::V1 { alg } => {
+            if body.first() != Some(&1) {
+                return Err("version octet != 1".into());
+            }
+            rfc::sym::seipd_v1_decrypt(alg, &key, &body[1..]).map_err(|e| format!("reference v1 decrypt: {e:?}"))
+        }
+        Cfg::V2 { sym, aead, co } => {
+            if body.len() < 36 || body[..4] != [2, sym, aead, co] {
+                return Err("v2 header octets differ from the configuration".into());
+            }
+            rfc::sym::seipd_v2_decrypt(&body, &key).map_err(|e| format!("reference v2 decrypt: {e:?}"))
+        }
+    };
+    // inner stream must be one literal packet carrying the payload
+    let reference = reference.and_then(|inner| {
+        let ip = rfc::frame::deframe(&inner).map_err(|e| format!("reference deframe inner: {e}"))?;
+        if ip.len() != 1 || ip[0].tag != 11 {
+            return Err("inner stream is not a single literal packet".into());
+        }
+        let lb = &ip[0].body;
+        if lb.len() < 6 || lb.len() < 6 + lb[1] as usize || lb[6 + lb[1] as usize..] != payload[..] {
+            return Err("reference: literal payload differs".into());
+        }
+        Ok(inner)
+    });
+    let mut ref_note = None;
+    let inner = match reference {
+        Ok(i) => i,
+        Err(e) => {
+            // The independent reference does not read what the library wrote (a construction fault: C12's
+            // business). Integrity is still judged: ground truth falls back to the library's own
+            // decryption of the untampered container.
+            ref_note = Some(e);
+            let probe = Base {
+                id, cfg, framing: Framing::Fixed, key: key.clone(), payload: payload.clone(), msg: msg.clone(), body: body.clone(),
+                hdr_len: 0, inner: vec![], regions: vec![], chunks: vec![], size_class: String::new(), ref_note: None,
+            };
+            match core::guard(|| run_direct(&body, &probe, Mode::Default, &Consume::ToEnd, Sched::All, false)) {
+                Ok(Outcome::Read(d, _)) if d.err.is_none() => d.data,
+                _ => return Err(format!("{} and the library does not decrypt its own container either", ref_note.unwrap_or_default())),
+            }
+        }
+    };
+    let (regions, chunks) = regions_and_chunks(cfg, &body, inner.len())?;
+    let framing = if is_partial { Framing::Partial } else { Framing::Fixed };
+    Ok(Base {
+        id,
+        cfg,
+        framing,
+        key,
+        payload,
+        hdr_len: msg.len() - body.len(),
+        size_class: size_class(cfg, inner.len()),
+        msg,
+        body,
+        inner,
+        regions,
+        chunks,
+        ref_note,
+    })
+}
+
+/// Container built by the reference encryptor around an arbitrary inner stream (any length,
+/// including 0 and 1, which no OpenPGP message can have): StreamDecryptor level only.
+fn make_ref_base(ctx: &Ctx, id: u32, cfg: Cfg, inner_len: usize) -> Result<Base, String> {
+    let mut rng = ctx.rng("base", id as u64);
+    let mut key = vec![0u8; cfg.key_len()];
+    rng.fill_bytes(&mut key);
+    let mut inner = vec![0u8; inner_len];
+    rng.fill_bytes(&mut inner);
+    let body = match cfg {
+        Cfg::V1 { alg } => {
+            let bs = rfc::sym::block_size(alg).ok_or("block size")?;
+            let mut pre = vec![0u8; bs];
+            rng.fill_bytes(&mut pre);
+            let mut b = vec![1u8];
+            b.extend(rfc::sym::seipd_v1_encrypt(alg, &key, &pre, &inner).ok_or("ref v1 encrypt")?);
+            b
+        }
+        Cfg::V2 { sym, aead, co } => {
+            let mut salt = [0u8; 32];
+            rng.fill_bytes(&mut salt);
+            rfc::sym::seipd_v2_encrypt(sym, aead, co, &salt, &key, &inner).ok_or("ref v2 encrypt")?
+        }
+    };
+    let msg = rfc::frame::frame(18, &body, &LenForm::NewMin).ok_or("frame")?;
+    let (regions, chunks) = regions_and_chunks(cfg, &body, inner.len())?;
+    Ok(Base {
+        id,
+        cfg,
+        framing: Framing::DirectOnly,
+        key,
+        payload: vec![],
+        hdr_len: msg.len() - body.len(),
+        size_class: size_class(cfg, inner.len()),
+        msg,
+        body,
+        inner,
+        regions,
+        chunks,
+        ref_note: None,
+    })
+}
+
+// ------------------------------------------------------------------------------------------
+// schedule-driven source for the StreamDecryptor level. (Local because `shim::SchedReader` keeps a
+// stale `fill_buf` window when `read` and `fill_buf` calls are mixed on one reader, which the
+// CFB decryptor does: prefix via `read`, data via `fill_buf`.)
+
+#[derive(Debug)]
+struct Src {
+    data: Vec<u8>,
+    pos: usize,
+    sched: Sched,
+    idx: usize,
+    rng: ChaCha8Rng,
+    window: usize,
+}
+
+impl Src {
+    fn new(data: Vec<u8>, sched: Sched) -> Self {
+        let seed = match &sched {
+            Sched::Random(s, _) => *s,
+            _ => 0,
+        };
+        Src { data, pos: 0, sched, idx: 0, rng: ChaCha8Rng::seed_from_u64(seed), window: 0 }
+    }
+    fn next_size(&mut self, want: usize) -> usize {
+        let remaining = self.data.len() - self.pos;
+        let n = match &self.sched {
+            Sched::All => want,
+            Sched::Fixed(n) => (*n).min(want),
+            Sched::Cycle(v) => {
+                let n = v[self.idx % v.len()];
+                self.idx += 1;
+                n.min(want)
+            }
+            Sched::SplitAt(v) => match v.iter().copied().find(|o| *o > self.pos) {
+                Some(o) => (o - self.pos).min(want),
+                None => want,
+            },
+            Sched::Random(_, max) => {
+                let m = (*max).max(1);
+                self.rng.gen_range(1..=m).min(want)
+            }
+        };
+        n.min(remaining)
+    }
+}
+
+impl Read for Src {
+    fn read(&mut self, buf: &mut [u8]) -> io::Result<usize> {
+        if buf.is_empty() {
+            return Ok(0);
+        }
+        let n = if self.window > 0 { self.window.min(buf.len()) } else { self.next_size(buf.len()) };
+        buf[..n].copy_from_slice(&self.data[self.pos..self.pos + n]);
+        self.pos += n;
+        self.window = self.window.saturating_sub(n);
+        Ok(n)
+    }
+}
+
+impl BufRead for Src {
+    fn fill_buf(&mut self) -> io::Result<&[u8]> {
+        if self.window == 0 {
+            self.window = self.next_size(usize::MAX);
+        }
+        Ok(&self.data[self.pos..self.pos + self.window])
+    }
+    fn consume(&mut self, amt: usize) {
+        let amt = amt.min(self.window);
+        self.pos += amt;
+        self.window -= amt;
+    }
+}
+
+// ------------------------------------------------------------------------------------------
+// running the library
+
+#[derive(Clone, Copy, PartialEq, Eq, Debug)]
+enum Post {
+    NotProbed,
+    Err,
+    Data,
+    Eof,
+    Panic,
+}
+
+enum Outcome {
+    /// `Message::from_bytes` / config parser rejected the input
+    Parse(String),
+    /// decrypt call returned Err
+    Decrypt(String),
+    Read(Drained, Post),
+    /// direct level not applicable (version octet changed to the other SEIPD version)
+    Skipped,
+}
+
+fn run_message(msg: &[u8], base: &Base, mode: Mode, pat: &Consume, probe: bool, sched: Option<Sched>) -> Outcome {
+    let parsed = match sched {
+        None => Message::from_bytes(msg),
+        // the message arrives in fragments (the source hands out short fill_buf windows)
+        Some(s) => Message::from_bytes(Src::new(msg.to_vec(), s)),
+    };
+    let m = match parsed {
+        Ok(m) => m,
+        Err(e) => return Outcome::Parse(e.to_string()),
+    };
+    let sk = base.session_key();
+    let dec = if mode == Mode::Default {
+        m.decrypt_with_session_key(sk)
+    } else {
+        let ring = TheRing {
+            session_keys: vec![sk],
+            decrypt_options: DecryptionOptions::new().set_seipdv1_read_mode(base.lib_mode(mode)),
+            ..Default::default()
+        };
+        m.decrypt_the_ring(ring, true).map(|(m, _)| m)
+    };
+    let mut d = match dec {
+        Ok(d) => d,
+        Err(e) => return Outcome::Decrypt(e.to_string()),
+    };
+    let dr = drain(&mut d, pat);
+    let post = if probe && dr.err.is_some() {
+        match core::guard(|| {
+            let mut b = [0u8; 64];
+            d.read(&mut b)
+        }) {
+            Ok(Ok(0)) => Post::Eof,
+            Ok(Ok(_)) => Post::Data,
+            Ok(Err(_)) => Post::Err,
+            Err(_) => Post::Panic,
+        }
+    } else {
+        Post::NotProbed
+    };
+    Outcome::Read(dr, post)
+}
+
+fn run_direct(body: &[u8], base: &Base, mode: Mode, pat: &Consume, sched: Sched, probe: bool) -> Outcome {
+    let mut src = Src::new(body.to_vec(), sched);
+    let cfg = match SymEncryptedProtectedDataConfig::try_from_reader(&mut src) {
+        Ok(c) => c,
+        Err(e) => return Outcome::Parse(e.to_string()),
+    };
+    let dec = match (cfg, base.cfg) {
+        (SymEncryptedProtectedDataConfig::V1, Cfg::V1 { alg }) => {
+            StreamDecryptor::v1(SymmetricKeyAlgorithm::from(alg), base.lib_mode(mode), &base.key, src)
+        }
+        (
+            SymEncryptedProtectedDataConfig::V2 {
+                sym_alg,
+                aead,
+                chunk_size,
+                salt,
+            },
+            Cfg::V2 { .. },
+        ) => StreamDecryptor::v2(sym_alg, aead, chunk_size, &salt, &base.key, src),
+        _ => return Outcome::Skipped,
+    };
+    let mut dec = match dec {
+        Ok(d) => d,
+        Err(e) => return Outcome::Decrypt(e.to_string()),
+    };
+    let dr = drain(&mut dec, pat);
+    let post = if probe && dr.err.is_some() {
+        match core::guard(|| {
+            let mut b = [0u8; 64];
+            dec.read(&mut b)
+        }) {
+            Ok(Ok(0)) => Post::Eof,
+            Ok(Ok(_)) => Post::Data,
+            Ok(Err(_)) => Post::Err,
+            Err(_) => Post::Panic,
+        }
+    } else {
+        Post::NotProbed
+    };
+    Outcome::Read(dr, post)
+}
+
+// ------------------------------------------------------------------------------------------
+// accounting that is flushed into the Ctx once per group (keeps the hot loop allocation free)
+
+#[derive(Default)]
+struct Acc {
+    t0: f64,
+    td: BTreeMap<String, u64>,
+    t: BTreeMap<&'static str, u64>,
+    sets: BTreeSet<(&'static str, Cow<'static, str>)>,
+    n: u64,
+}
+
+impl Acc {
+    fn t(&mut self, k: &'static str) {
+        *self.t.entry(k).or_insert(0) += 1;
+    }
+    fn s(&mut self, set: &'static str, item: impl Into<Cow<'static, str>>) {
+        self.sets.insert((set, item.into()));
+    }
+    fn flush_as(&mut self, ctx: &mut Ctx, label: &str) {
+        let now = core::thread_cpu_s();
+        ctx.tally(&format!("cpu_ms.{label}"), ((now - self.t0) * 1000.0) as u64);
+        self.t0 = now;
+        self.flush(ctx);
+    }
+    fn flush(&mut self, ctx: &mut Ctx) {
+        for (k, v) in std::mem::take(&mut self.t) {
+            ctx.tally(k, v);
+        }
+        for (k, v) in std::mem::take(&mut self.td) {
+            ctx.tally(&k, v);
+        }
+        for (s, i) in std::mem::take(&mut self.sets) {
+            ctx.seen(s, i.into_owned());
+        }
+    }
+}
+
+fn err_class(s: &str) -> String {
+    // stable class of an error text: cut at the first digit / quote, at most 60 chars
+    let mut o = String::new();
+    for ch in s.chars() {
+        if ch.is_ascii_digit() || ch == '"' || ch == '[' || ch == '{' || o.len() >= 60 {
+            break;
+        }
+        o.push(ch);
+    }
+    o.trim().to_string()
+}
+
+#[derive(Clone, Copy, PartialEq, Eq)]
+enum Level {
+    Msg,
+    Direct,
+}
+
+impl Level {
+    fn name(&self) -> &'static str {
+        match self {
+            Level::Msg => "message",
+            Level::Direct => "stream-decryptor",
+        }
+    }
+}
+
+struct Trial<'a> {
+    base: &'a Base,
+    mode: Mode,
+    kind: &'static str,
+    /// tamper description (only rendered when something is reported)
+    desc: &'a dyn Fn() -> String,
+    pat: &'a Consume,
+    probe: bool,
+}
+
+fn chunk_idx_name(i: u64) -> &'static str {
+    match i {
+        0 => "0",
+        1 => "1",
+        2 => "2",
+        3 => "3",
+        _ => "4+",
+    }
+}
+
+/// Applies the oracle to one observed execution.
+fn judge(ctx: &mut Ctx, acc: &mut Acc, t: &Trial, level: Level, data: &[u8], out: Outcome, ev: &[Ev]) {
+    let base = t.base;
+    let fam = base.fam();
+    let replay = |what: &str| {
+        json!({
+            "config": base.cfg.label(), "size_class": base.size_class, "framing": format!("{:?}", base.framing),
+            "base_id": base.id, "mode": t.base.mode_name(t.mode), "level": level.name(), "kind": t.kind, "tamper": (t.desc)(),
+            "consumer": t.pat.name(), "session_key": hex::encode(&base.key),
+            "input": hexs(data), "untampered": hexs(if level == Level::Msg { &base.msg } else { &base.body }),
+            "what": what,
+        })
+    };
+    acc.n += 1;
+    let truth: &[u8] = if level == Level::Msg { &base.payload } else { &base.inner };
+    let mut clean = false;
+    let mut released = 0usize;
+    match &out {
+        Outcome::Skipped => return,
+        Outcome::Parse(e) => {
+            acc.t("outcome.parse-error");
+            if acc.n % 8 == 0 {
+                acc.s("error-classes", err_class(e));
+            }
+        }
+        Outcome::Decrypt(e) => {
+            acc.t("outcome.decrypt-call-error");
+            if acc.n % 8 == 0 {
+                acc.s("error-classes", err_class(e));
+            }
+        }
+        Outcome::Read(d, post) => {
+            released = d.data.len();
+            match &d.err {
+                None => {
+                    clean = true;
+                    ctx.violation(
+                        format!("C03/{fam}/{}/clean-eof", t.kind),
+                        format!(
+                            "tampered container read to a clean end of stream ({} level, {}, {}, {}, consumer {}): {} bytes released, {}",
+                            level.name(), base.label(), t.base.mode_name(t.mode), (t.desc)(), t.pat.name(), d.data.len(),
+                            if d.data == truth { "equal to the true plaintext" } else if truth.starts_with(&d.data) { "a prefix of the true plaintext" } else { "NOT the true plaintext" }
+                        ),
+                        replay("clean-eof"),
+                    );
+                }
+                Some(e) => {
+                    acc.t("outcome.read-error");
+                    if acc.n % 8 == 0 {
+                        acc.s("error-classes", err_class(&e.to_string()));
+                    }
+                }
+            }
+            if !d.data.is_empty() && d.err.is_some() {
+                match base.cfg {
+                    Cfg::V1 { .. } if t.mode.check_first() => {
+                        ctx.violation(
+                            format!("C03/{fam}/{}/released-before-auth", t.kind),
+                            format!(
+                                "SEIPDv1 CheckFirst mode released {} plaintext bytes before the error ({} level, {}, {}, {}, consumer {})",
+                                d.data.len(), level.name(), base.label(), t.base.mode_name(t.mode), (t.desc)(), t.pat.name()
+                            ),
+                            replay("released-before-auth"),
+                        );
+                    }
+                    Cfg::V1 { .. } => {
+                        // streaming mode: unauthenticated plaintext before the error is documented; out of scope
+                        if truth.starts_with(&d.data) {
+                            acc.t("v1-streaming.released-true-prefix-before-error");
+                        } else {
+                            acc.t("v1-streaming.released-garbage-before-error(out-of-scope)");
+                        }
+                    }
+                    Cfg::V2 { .. } => {
+                        if truth.starts_with(&d.data) {
+                            acc.t("v2.released-true-prefix-before-error");
+                        } else {
+                            ctx.violation(
+                                format!("C03/{fam}/{}/released-non-prefix", t.kind),
+                                format!(
+                                    "SEIPDv2 released {} bytes before the error that are not a prefix of the true plaintext ({} level, {}, {}, consumer {})",
+                                    d.data.len(), level.name(), base.label(), (t.desc)(), t.pat.name()
+                                ),
+                                replay("released-non-prefix"),
+                            );
+                        }
+                    }
+                }
+            }
+            if *post != Post::NotProbed {
+                // what a consumer sees that calls read() once more after the error (observation only:
+                // the property does not speak about reads after a reported failure)
+                let k = format!(
+                    "post-error-read(observation).{}.{}.{}.{}",
+                    fam,
+                    t.base.mode_name(t.mode),
+                    level.name(),
+                    match post {
+                        Post::Err => "error-again",
+                        Post::Data => "DATA",
+                        Post::Eof => "CLEAN-EOF",
+                        Post::Panic => "PANIC",
+                        Post::NotProbed => "",
+                    }
+                );
+                *acc.td.entry(k).or_insert(0) += 1;
+                if matches!(post, Post::Eof | Post::Data | Post::Panic) && level == Level::Msg {
+                    let first_err = d.err.as_ref().map(|e| err_class(&e.to_string())).unwrap_or_default();
+                    acc.s(
+                        "post-error-read(observation).message-level-classes",
+                        format!("{fam}/{}/{}: first error '{}', next read: {:?}, consumer {}", t.base.mode_name(t.mode), t.kind, first_err, post, t.pat.name()),
+                    );
+                }
+            }
+        }
+    }
+    // hook invariants and state coverage
+    if !ev.is_empty() {
+        let mut mdc_ok = false;
+        let mut fin = false;
+        let mut max_written = 0u64;
+        let mut any_chunk = false;
+        for e in ev {
+            match e.site {
+                "cfb.dec.mdc_ok" => mdc_ok = true,
+                "cfb.dec.avail" => {
+                    acc.s(
+                        "hook.cfb.dec.avail(mode,is_last)",
+                        match (e.a, e.c) {
+                            (0, 0) => "checkfirst-notlast",
+                            (0, _) => "checkfirst-last",
+                            (1, 0) => "streaming-notlast",
+                            (1, _) => "streaming-last",
+                            _ => "sed",
+                        },
+                    );
+                    if e.a == 0 && e.b > 0 && !mdc_ok {
+                        ctx.violation(
+                            "C03/v1/hook/avail-before-mdc",
+                            format!(
+                                "CheckFirst decryptor made {} plaintext bytes available before the MDC was verified ({}, {}, {})",
+                                e.b, base.label(), t.base.mode_name(t.mode), (t.desc)()
+                            ),
+                            replay("hook I-1"),
+                        );
+                    }
+                }
+                "aead.dec.chunk" => {
+                    any_chunk = true;
+                    max_written = max_written.max(e.c);
+                    acc.s("hook.aead.dec.chunk.index", chunk_idx_name(e.a));
+                }
+                "aead.dec.final" => fin = true,
+                _ => {}
+            }
+        }
+        if let Cfg::V2 { .. } = base.cfg {
+            if clean && !fin {
+                ctx.violation(
+                    "C03/v2/hook/clean-eof-without-final",
+                    format!("SEIPDv2 stream ended cleanly without the final tag having been verified ({}, {})", base.label(), (t.desc)()),
+                    replay("hook I-2"),
+                );
+            }
+            if released as u64 > max_written && (any_chunk || released > 0) {
+                ctx.violation(
+                    "C03/v2/hook/released-exceeds-authenticated",
+                    format!(
+                        "{} bytes released but only {} bytes had been authenticated chunk-wise ({}, {})",
+                        released, max_written, base.label(), (t.desc)()
+                    ),
+                    replay("hook I-2"),
+                );
+            }
+        }
+    }
+}
+
+fn sched_for(v: u64, c: usize) -> Sched {
+    match v % 5 {
+        0 => Sched::All,
+        1 => Sched::Fixed(1),
+        2 => Sched::Fixed(7),
+        3 => Sched::Cycle(vec![c + 15, 1, 17]),
+        _ => Sched::Random(v, 64),
+    }
+}
+
+/// Message level trial
+fn try_msg(ctx: &mut Ctx, acc: &mut Acc, t: &Trial, tampered: &[u8], v: u64) {
+    if tampered == &t.base.msg[..] {
+        acc.t("skipped.identical-to-original");
+        return;
+    }
+    // every third variant is delivered through a fragmenting source
+    let sched = if v % 3 == 2 { Some(sched_for(v / 3 + 1, t.base.cfg.chunk())) } else { None };
+    if sched.is_some() {
+        acc.t("trials.message-level.fragmented-source");
+    }
+    let sigp = format!("C03/{}/{}", t.base.fam(), t.kind);
+    let r = ctx.guarded(
+        &sigp,
+        || json!({"config": t.base.cfg.label(), "mode": t.base.mode_name(t.mode), "level": "message", "tamper": (t.desc)(), "consumer": t.pat.name(), "source": sched.as_ref().map(|s| s.name()), "session_key": hex::encode(&t.base.key), "input": hexs(tampered)}),
+        || hooks::record(|| run_message(tampered, t.base, t.mode, t.pat, t.probe, sched.clone())),
+    );
+    ctx.eval();
+    acc.t("trials.message-level");
+    if let Some((out, ev)) = r {
+        judge(ctx, acc, t, Level::Msg, tampered, out, &ev);
+    }
+}
+
+/// StreamDecryptor level trial
+fn try_direct(ctx: &mut Ctx, acc: &mut Acc, t: &Trial, body: &[u8], v: u64) {
+    if body == &t.base.body[..] {
+        acc.t("skipped.identical-to-original");
+        return;
+    }
+    let sched = sched_for(v, t.base.cfg.chunk());
+    let sigp = format!("C03/{}/{}", t.base.fam(), t.kind);
+    let r = ctx.guarded(
+        &sigp,
+        || json!({"config": t.base.cfg.label(), "mode": t.base.mode_name(t.mode), "level": "stream-decryptor", "tamper": (t.desc)(), "consumer": t.pat.name(), "source": sched.name(), "session_key": hex::encode(&t.base.key), "input": hexs(body)}),
+        || hooks::record(|| run_direct(body, t.base, t.mode, t.pat, sched.clone(), t.probe)),
+    );
+    if let Some((out, ev)) = r {
+        if !matches!(out, Outcome::Skipped) {
+            ctx.eval();
+            acc.t("trials.stream-decryptor-level");
+        }
+        judge(ctx, acc, t, Level::Direct, body, out, &ev);
+    }
+}
+
+/// Frames a (tampered) body as the SEIPD packet of the message.
+fn reframe(body: &[u8]) -> Vec<u8> {
+    rfc::frame::frame(18, body, &LenForm::NewMin).expect("frame")
+}
+
+// ------------------------------------------------------------------------------------------
+// baseline: the untampered message must decrypt (else the base is unusable => inconclusive)
+
+fn baseline_ok(base: &Base, pats: &[Consume]) -> Result<(), String> {
+    for mode in base.modes() {
+        for (i, pat) in pats.iter().enumerate() {
+            if base.framing != Framing::DirectOnly {
+                match core::guard(|| run_message(&base.msg, base, *mode, pat, false, if i % 2 == 1 { Some(sched_for(i as u64, base.cfg.chunk())) } else { None })) {
+                    Ok(Outcome::Read(d, _)) if d.err.is_none() && d.data == base.payload => {}
+                    Ok(Outcome::Read(d, _)) => {
+                        return Err(format!("untampered message: {:?} / {} bytes ({} {})", d.err.map(|e| e.to_string()), d.data.len(), mode.name(), pat.name()))
+                    }
+                    Ok(Outcome::Parse(e)) | Ok(Outcome::Decrypt(e)) => return Err(format!("untampered message rejected: {e}")),
+                    Ok(Outcome::Skipped) => return Err("skipped".into()),
+                    Err(p) => return Err(format!("untampered message panics: {} at {}", p.msg, p.loc)),
+                }
+            }
+            match core::guard(|| run_direct(&base.body, base, *mode, pat, sched_for(i as u64, base.cfg.chunk()), false)) {
+                Ok(Outcome::Read(d, _)) if d.err.is_none() && d.data == base.inner => {}
+                Ok(Outcome::Read(d, _)) => {
+                    return Err(format!("untampered container (StreamDecryptor): {:?} / {} bytes ({} {})", d.err.map(|e| e.to_string()), d.data.len(), mode.name(), pat.name()))
+                }
+                Ok(Outcome::Parse(e)) | Ok(Outcome::Decrypt(e)) => return Err(format!("untampered container rejected: {e}")),
+                Ok(Outcome::Skipped) => return Err("skipped".into()),
+                Err(p) => return Err(format!("untampered container panics: {} at {}", p.msg, p.loc)),
+            }
+        }
+    }
+    Ok(())
+}
+
+/// Records the hook states the untampered message reaches (coverage only) and checks the
+/// hook invariants on the clean run.
+fn baseline_hooks(ctx: &mut Ctx, acc: &mut Acc, base: &Base, pats: &[Consume]) {
+    for mode in base.modes() {
+        for (i, pat) in pats.iter().enumerate() {
+            let (out, ev) = hooks::record(|| {
+                core::guard(|| run_direct(&base.body, base, *mode, pat, sched_for(i as u64, base.cfg.chunk()), false))
+            });
+            ctx.eval();
+            acc.t("trials.untampered");
+            let Ok(Outcome::Read(d, _)) = out else { continue };
+            let mut mdc_ok = false;
+            let mut fin = false;
+            for e in &ev {
+                match e.site {
+                    "cfb.dec.mdc_ok" => mdc_ok = true,
+                    "aead.dec.final" => fin = true,
+                    "aead.dec.chunk" => acc.s("hook.aead.dec.chunk.index", chunk_idx_name(e.a)),
+                    "cfb.dec.avail" => {
+                        acc.s(
+                            "hook.cfb.dec.avail(mode,is_last)",
+                            match (e.a, e.c) {
+                                (0, 0) => "checkfirst-notlast",
+                                (0, _) => "checkfirst-last",
+                                (1, 0) => "streaming-notlast",
+                                (1, _) => "streaming-last",
+                                _ => "sed",
+                            },
+                        );
+                        if e.a == 0 && e.b > 0 && !mdc_ok {
+                            ctx.violation(
+                                "C03/v1/hook/avail-before-mdc",
+                                format!("CheckFirst decryptor made {} plaintext bytes available before the MDC was verified (untampered {})", e.b, base.label()),
+                                json!({"base": base.label(), "input": hexs(&base.body), "session_key": hex::encode(&base.key)}),
+                            );
+                        }
+                    }
+                    _ => {}
+                }
+            }
+            if hooks::available() && d.err.is_none() {
+                match base.cfg {
+                    Cfg::V1 { .. } => {
+                        if mdc_ok {
+                            acc.s("hook.cfb.dec.mdc_ok", "seen");
+                        }
+                    }
+                    Cfg::V2 { .. } => {
+                        if fin {
+                            acc.s("hook.aead.dec.final", "seen");
+                        } else {
+                            ctx.violation(
+                                "C03/v2/hook/clean-eof-without-final",
+                                format!("untampered SEIPDv2 stream ended cleanly without the final-tag probe firing ({})", base.label()),
+                                json!({"base": base.label(), "input": hexs(&base.body), "session_key": hex::encode(&base.key)}),
+                            );
+                        }
+                    }
+                }
+            }
+        }
+    }
+}
+
+// ------------------------------------------------------------------------------------------
+// workload plans
+
+struct Plan {
+    /// exhaustive flips with every consumer pattern up to this container size
+    all_pats_upto: usize,
+    /// exhaustive flips / truncations (rotating pattern) up to this container size; sampled above
+    exhaustive_upto: usize,
+    /// random extra positions for sampled containers
+    random_positions: usize,
+}
+
+/// byte offsets of `len` to visit: everything if small, otherwise windows around the structural
+/// boundaries, the head, the tail and a seeded random sample.
+fn positions(len: usize, exhaustive_upto: usize, boundaries: &[usize], rng: &mut ChaCha8Rng, nrand: usize, win: usize) -> Vec<usize> {
+    if len <= exhaustive_upto {
+        return (0..len).collect();
+    }
+    let mut s = BTreeSet::new();
+    for b in boundaries.iter().copied().chain([0usize, len]) {
+        let lo = b.saturating_sub(win);
+        let hi = (b + win).min(len);
+        for p in lo..hi {
+            s.insert(p);
+        }
+    }
+    for _ in 0..nrand {
+        s.insert(rng.gen_range(0..len));
+    }
+    s.into_iter().collect()
+}
+
+fn boundaries_of(base: &Base, in_msg: bool) -> Vec<usize> {
+    let off = if in_msg { base.hdr_len } else { 0 };
+    let mut v: Vec<usize> = base.regions.iter().map(|(s, _, _)| s + off).collect();
+    if let Cfg::V1 { alg } = base.cfg {
+        // internal 8192-byte buffer of the CFB decryptor (counted from the end of the prefix)
+        let bs = rfc::sym::block_size(alg).unwrap_or(16);
+        let start = 1 + bs + 2 + off;
+        let mut p = start + 8192;
+        while p < base.body.len() + off {
+            v.push(p);
+            v.push(p - 22);
+            p += 8192 - 22;
+            v.push(p);
+            p += 22;
+        }
+    }
+    // outer PacketBodyReader / partial chunk edges
+    let mut p = 512;
+    while p < base.msg.len() && v.len() < 64 {
+        v.push(p);
+        p *= 2;
+    }
+    v
+}
+
+fn all_perms(n: usize) -> Vec<Vec<usize>> {
+    fn rec(cur: &mut Vec<usize>, used: &mut Vec<bool>, n: usize, out: &mut Vec<Vec<usize>>) {
+        if cur.len() == n {
+            out.push(cur.clone());
+            return;
+        }
+        for i in 0..n {
+            if !used[i] {
+                used[i] = true;
+                cur.push(i);
+                rec(cur, used, n, out);
+                cur.pop();
+                used[i] = false;
+            }
+        }
+    }
+    let mut out = vec![];
+    rec(&mut vec![], &mut vec![false; n], n, &mut out);
+    out
+}
+
+/// v2 chunk-level tampers: (description, new body)
+fn chunk_ops(base: &Base) -> Vec<(String, Vec<u8>)> {
+    let mut out = vec![];
+    if base.chunks.is_empty() {
+        return out;
+    }
+    let b = &base.body;
+    let head = &b[..36];
+    let n = base.chunks.len() - 1; // data chunks
+    let rec: Vec<&[u8]> = base.chunks[..n].iter().map(|(s, e)| &b[*s..*e]).collect();
+    let fin = &b[base.chunks[n].0..base.chunks[n].1];
+    let asm = |parts: &[&[u8]], fin: &[u8]| {
+        let mut v = head.to_vec();
+        for p in parts {
+            v.extend_from_slice(p);
+        }
+        v.extend_from_slice(fin);
+        v
+    };
+    // permutations
+    if (2..=4).contains(&n) {
+        for p in all_perms(n) {
+            if p.iter().enumerate().all(|(i, j)| i == *j) {
+                continue;
+            }
+            let parts: Vec<&[u8]> = p.iter().map(|i| rec[*i]).collect();
+            out.push((format!("permute chunks {p:?}"), asm(&parts, fin)));
+        }
+    }
+    for i in 0..n {
+        // drop
+        let parts: Vec<&[u8]> = (0..n).filter(|j| *j != i).map(|j| rec[j]).collect();
+        out.push((format!("drop chunk {i} of {n}"), asm(&parts, fin)));
+        // duplicate in place
+        let mut parts: Vec<&[u8]> = vec![];
+        for j in 0..n {
+            parts.push(rec[j]);
+            if j == i {
+                parts.push(rec[j]);
+            }
+        }
+        out.push((format!("duplicate chunk {i} of {n} in place"), asm(&parts, fin)));
+        // duplicate at the end
+        let mut parts: Vec<&[u8]> = rec.clone();
+        parts.push(rec[i]);
+        out.push((format!("append a copy of chunk {i} of {n}"), asm(&parts, fin)));
+        // keep only the first i chunks, final tag kept
+        out.push((format!("keep first {i} of {n} chunks + final tag"), asm(&rec[..i], fin)));
+        // tag games
+        let l = rec[i].len();
+        let ctag = &rec[i][l - 16..];
+        {
+            // final tag <-> tag of chunk i
+            let mut v = b.clone();
+            let (s, e) = base.chunks[i];
+            v[e - 16..e].copy_from_slice(fin);
+            let (fs, fe) = base.chunks[n];
+            v[fs..fe].copy_from_slice(ctag);
+            let _ = s;
+            out.push((format!("swap final tag with tag of chunk {i}"), v));
+        }
+        out.push((format!("final tag := tag of chunk {i}"), asm(&rec, ctag)));
+        {
+            let mut v = b.clone();
+            let (_, e) = base.chunks[i];
+            v[e - 16..e].copy_from_slice(fin);
+            out.push((format!("tag of chunk {i} := final tag"), v));
+        }
+        if i + 1 < n {
+            // tags of chunk i and i+1 swapped
+            let mut v = b.clone();
+            let (_, e1) = base.chunks[i];
+            let (_, e2) = base.chunks[i + 1];
+            let t1 = b[e1 - 16..e1].to_vec();
+            let t2 = b[e2 - 16..e2].to_vec();
+            v[e1 - 16..e1].copy_from_slice(&t2);
+            v[e2 - 16..e2].copy_from_slice(&t1);
+            out.push((format!("swap tags of chunks {i} and {}", i + 1), v));
+        }
+        if l > 16 {
+            // last chunk shortened by one plaintext octet, tag kept
+            let mut parts: Vec<Vec<u8>> = rec.iter().map(|r| r.to_vec()).collect();
+            parts[i].remove(l - 17);
+            let pr: Vec<&[u8]> = parts.iter().map(|p| &p[..]).collect();
+            out.push((format!("remove last ciphertext octet of chunk {i}"), asm(&pr, fin)));
+        }
+    }
+    // final tag: dropped, duplicated, zeroed, moved to front
+    out.push(("drop final tag".into(), asm(&rec, &[])));
+    {
+        let mut f2 = fin.to_vec();
+        f2.extend_from_slice(fin);
+        out.push(("duplicate final tag".into(), asm(&rec, &f2)));
+    }
+    out.push(("final tag := 0".into(), asm(&rec, &[0u8; 16])));
+    if n > 0 {
+        let mut parts: Vec<&[u8]> = vec![fin];
+        parts.extend(rec.iter());
+        out.push(("move final tag to the front".into(), asm(&parts, &[])));
+        // rotations are among the permutations for n <= 4; for larger n add the two rotations
+        if n > 4 {
+            let mut l: Vec<&[u8]> = rec[1..].to_vec();
+            l.push(rec[0]);
+            out.push(("rotate chunks left".into(), asm(&l, fin)));
+            let mut r: Vec<&[u8]> = vec![rec[n - 1]];
+            r.extend(&rec[..n - 1]);
+            out.push(("rotate chunks right".into(), asm(&r, fin)));
+            let mut s: Vec<&[u8]> = rec.clone();
+            s.swap(0, 1);
+            out.push(("swap chunks 0 and 1".into(), asm(&s, fin)));
+            let mut s: Vec<&[u8]> = rec.clone();
+            s.swap(n - 2, n - 1);
+            out.push(("swap the last two chunks".into(), asm(&s, fin)));
+        }
+    }
+    out.push(("drop all chunks (header + final tag only)".into(), asm(&[], fin)));
+    out
+}
+
+/// v1 block-level tampers on the ciphertext
+fn cfb_splices(base: &Base, rng: &mut ChaCha8Rng) -> Vec<(String, Vec<u8>)> {
+    let Cfg::V1 { alg } = base.cfg else { return vec![] };
+    let bs = rfc::sym::block_size(alg).unwrap_or(16);
+    let b = &base.body;
+    let ct = &b[1..];
+    let nb = ct.len() / bs;
+    let mut out = vec![];
+    let mut idx: Vec<usize> = vec![0, 1, 2, nb / 2, nb.saturating_sub(4), nb.saturating_sub(3), nb.saturating_sub(2), nb.saturating_sub(1)];
+    idx.sort();
+    idx.dedup();
+    for i in idx {
+        if i >= nb {
+            continue;
+        }
+        let (s, e) = (1 + i * bs, 1 + (i + 1) * bs);
+        if i + 1 < nb && b[s..e] != b[e..e + bs] {
+            let mut v = b.clone();
+            let t = v[s..e].to_vec();
+            v.copy_within(e..e + bs, s);
+            v[e..e + bs].copy_from_slice(&t);
+            out.push((format!("swap ciphertext blocks {i},{}", i + 1), v));
+        }
+        let mut v = b.clone();
+        for x in &mut v[s..e] {
+            *x = 0;
+        }
+        out.push((format!("zero ciphertext block {i}"), v));
+        let mut v = b[..e].to_vec();
+        v.extend_from_slice(&b[s..e]);
+        v.extend_from_slice(&b[e..]);
+        out.push((format!("duplicate ciphertext block {i}"), v));
+        let mut v = b[..s].to_vec();
+        v.extend_from_slice(&b[e..]);
+        out.push((format!("delete ciphertext block {i}"), v));
+    }
+    let n = b.len();
+    if n > 23 {
+        let mut v = b.clone();
+        for x in &mut v[n - 22..] {
+            *x = 0;
+        }
+        out.push(("last 22 octets := 0".into(), v));
+        let mut v = b.clone();
+        rng.fill_bytes(&mut v[n - 22..]);
+        out.push(("last 22 octets := random".into(), v));
+        let mut v = b.clone();
+        rng.fill_bytes(&mut v[n - 20..]);
+        out.push(("last 20 octets := random".into(), v));
+        // MDC moved: drop 22 octets before the MDC
+        if n > 1 + bs + 2 + 22 + 22 {
+            let mut v = b[..n - 44].to_vec();
+            v.extend_from_slice(&b[n - 22..]);
+            out.push(("delete the 22 octets in front of the MDC".into(), v));
+        }
+    }
+    out
+}
+
+fn appendices(base: &Base, rng: &mut ChaCha8Rng) -> Vec<(String, Vec<u8>)> {
+    let c = base.cfg.chunk();
+    let b = &base.body;
+    let mut out = vec![];
+    let mut lens = vec![1usize, 2, 15, 16, 17, 22, 23, 64];
+    if c > 0 {
+        lens.extend([c, c + 16, c + 17, 2 * (c + 16)]);
+    } else {
+        lens.extend([8192 - 22, 8192]);
+    }
+    for l in lens {
+        let mut v = b.clone();
+        let mut x = vec![0u8; l];
+        rng.fill_bytes(&mut x);
+        v.extend(x);
+        out.push((format!("append {l} random octets"), v));
+    }
+    for l in [1usize, 16] {
+        let mut v = b.clone();
+        v.extend(vec![0u8; l]);
+        out.push((format!("append {l} zero octets"), v));
+    }
+    for l in [16usize, 22, 38] {
+        if b.len() > l {
+            let mut v = b.clone();
+            v.extend_from_slice(&b[b.len() - l..]);
+            out.push((format!("append a copy of the last {l} octets"), v));
+        }
+    }
+    // a second copy of the whole encrypted stream
+    let hl = if c > 0 { 36 } else { 1 };
+    let mut v = b.clone();
+    v.extend_from_slice(&b[hl..]);
+    out.push(("append a copy of the whole ciphertext".into(), v));
+    out
+}
+
+// ------------------------------------------------------------------------------------------
+
+/// Consumer patterns for one tamper variant: all of them for small containers; for the others a
+/// rotating one (on big containers the byte-wise patterns only for every 16th variant: in
+/// streaming mode they cost one library call per plaintext octet).
+fn pat_for<'a>(pats: &'a [Consume], all: bool, v: usize, big: bool) -> &'a [Consume] {
+    if all {
+        return pats;
+    }
+    let i = if big {
+        const COARSE: [usize; 6] = [0, 3, 4, 7, 2, 8];
+        const FINE: [usize; 3] = [1, 5, 6];
+        if v % 16 == 15 {
+            FINE[(v / 16) % 3]
+        } else {
+            COARSE[v % 6]
+        }
+    } else {
+        v % pats.len()
+    };
+    &pats[i..i + 1]
+}
 
 pub fn run(ctx: &mut Ctx) {
-    ctx.inconclusive("monitor not built yet");
+    let pats = Consume::all_basic();
+    let quick = ctx.quick();
+    let plan = Plan {
+        all_pats_upto: ctx.qt(330, 1100),
+        exhaustive_upto: ctx.qt(1400, 4200),
+        random_positions: ctx.qt(96, 400),
+    };
+
+    // ---- configurations
+    let v1_algs: Vec<u8> = if quick { vec![7, 9, 2, 3, 10, 12] } else { rfc::sym::ALL_CIPHERS.to_vec() };
+    let v2_chunks: Vec<u8> = if quick { vec![0, 1, 2] } else { vec![0, 1, 2, 3, 4, 5, 6] };
+
+    // ---- base messages (built identically in every shard; cheap)
+    let mut specs: Vec<(Cfg, usize, Option<u32>, bool)> = vec![]; // (cfg, payload len | inner len, partial, reference-built)
+    for &co in &v2_chunks {
+        let c = 64usize << co;
+        for sym in [7u8, 8, 9] {
+            for aead in [1u8, 2, 3] {
+                let cfg = Cfg::V2 { sym, aead, co };
+                let mut targets = vec![8, 9, c - 1, c, c + 1, 2 * c - 1, 2 * c, 2 * c + 1, 3 * c, 3 * c + 1, 4 * c];
+                if !quick {
+                    targets.extend([c / 2 + 8, 3 * c - 1, 4 * c - 1, 4 * c + 1, 5 * c]);
+                }
+                // the big chunk sizes of the thorough tier: only the AES-128 row and the diagonal get every size
+                let full = c <= 256 || sym == 7 || (sym - 7) == (aead - 1);
+                targets.sort();
+                targets.dedup();
+                for (k, t) in targets.iter().enumerate() {
+                    if !full && k % 3 != 0 {
+                        continue;
+                    }
+                    if let Some(p) = payload_for_inner(*t) {
+                        specs.push((cfg, p, None, false));
+                    }
+                }
+                // partial outer framing (builder from a reader, 512-byte partial chunks)
+                if (sym - 7) == (aead - 1) || !quick {
+                    specs.push((cfg, (2 * c + 1).max(600), Some(512), false));
+                }
+                // reference-built containers of inner streams no message can have
+                for l in [0usize, 1] {
+                    specs.push((cfg, l, None, true));
+                }
+                if (sym - 7) == (aead - 1) {
+                    specs.push((cfg, 2 * c, None, true));
+                }
+            }
+        }
+    }
+    for (ai, &alg) in v1_algs.iter().enumerate() {
+        let cfg = Cfg::V1 { alg };
+        let mut small = vec![0usize, 1, 2, 15, 16, 17, 64];
+        if !quick {
+            small.extend([7, 8, 9, 31, 32, 33, 255, 700]);
+        }
+        for p in small {
+            specs.push((cfg, p, None, false));
+        }
+        // around the internal 8192-byte buffer (data + 22 MDC octets)
+        let mut big = vec![8192 - 22 - 1, 8192 - 22, 8192 - 22 + 1, 8192, 2 * 8192 - 22, 2 * 8192];
+        if !quick {
+            big.extend([8192 - 1, 8192 + 1, 2 * 8192 - 44, 2 * 8192 - 22 - 1, 2 * 8192 - 22 + 1, 3 * 8192 - 66, 3 * 8192]);
+        }
+        for (k, t) in big.iter().enumerate() {
+            // quick: AES-128 gets every size, AES-256 three of them, the (slow, table-driven) others
+            // two sizes around the first buffer edge
+            if quick {
+                let keep = match ai {
+                    0 => true,
+                    1 => k % 2 == 1,
+                    _ => k < 4 && (k + ai) % 2 == 0,
+                };
+                if !keep {
+                    continue;
+                }
+            }
+            if let Some(p) = payload_for_inner(*t) {
+                specs.push((cfg, p, None, false));
+            }
+        }
+        specs.push((cfg, 700, Some(512), false));
+        if ai < 2 || !quick {
+            specs.push((cfg, 2 * 8192 + 100, Some(4096), false));
+        }
+        for l in [0usize, 1] {
+            specs.push((cfg, l, None, true));
+        }
+    }
+
+    let mut bases: Vec<Base> = vec![];
+    let mut build_failures: Vec<String> = vec![];
+    for (i, (cfg, len, partial, reference)) in specs.iter().enumerate() {
+        let r = if *reference {
+            make_ref_base(ctx, i as u32, *cfg, *len)
+        } else {
+            make_base(ctx, i as u32, *cfg, *len, *partial)
+        };
+        match r.and_then(|b| baseline_ok(&b, &pats[..3]).map(|_| b)) {
+            Ok(b) => bases.push(b),
+            Err(e) => build_failures.push(format!("{} len {} partial {:?}: {}", cfg.label(), len, partial, e)),
+        }
+    }
+    if ctx.mine() {
+        // reported once (by the shard owning case 0)
+        for f in &build_failures {
+            ctx.inconclusive(format!("base message unusable: {f}"));
+        }
+        ctx.tally("bases.built", bases.len() as u64);
+        for b in &bases {
+            if let Some(n) = &b.ref_note {
+                ctx.inconclusive(format!("reference does not read the untampered container ({}): {}; ground truth taken from the library round trip", b.cfg.label(), n));
+            }
+        }
+    }
+
+    let mut acc = Acc::default();
+    let mut sampled = 0;
+
+    for base in &bases {
+        let small = base.msg.len() <= plan.all_pats_upto;
+        let big = base.msg.len() > 2000;
+        let fam = base.fam();
+        let c = base.cfg.chunk();
+        let msg_level = base.framing != Framing::DirectOnly;
+        let direct_level = base.framing != Framing::Partial;
+
+        // ---- baseline coverage (once per base)
+        if ctx.mine() {
+            describe_case(&format!("C03 baseline {}", base.label()));
+            baseline_hooks(ctx, &mut acc, base, &pats);
+            acc.s("configs", base.cfg.label());
+            acc.s(if fam == "v1" { "v1.size-classes" } else { "v2.size-classes" }, base.size_class.clone());
+            acc.s("framings", format!("{:?}", base.framing));
+            if let Cfg::V2 { .. } = base.cfg {
+                acc.s("v2.data-chunks", chunk_idx_name((base.chunks.len() - 1) as u64));
+            }
+            acc.flush_as(ctx, &format!("{fam}.baseline.{}", if base.msg.len() > 2000 { "big" } else { "small" }));
+        }
+
+        for &mode in base.modes() {
+            let probe_every = 16u64;
+
+            // ---- A: single-bit flips over the whole message (header + body)
+            {
+                let mut rng = ctx.rng("flip-pos", base.id as u64);
+                let pos = positions(base.msg.len(), plan.exhaustive_upto, &boundaries_of(base, true), &mut rng, plan.random_positions, if big { 12 } else { 20 });
+                if pos.len() == base.msg.len() {
+                    acc.s("flip.exhaustive", format!("{}/{}", base.cfg.label(), base.size_class));
+                }
+                let mut scratch = base.msg.clone();
+                let mut bscratch = base.body.clone();
+                for (gi, group) in pos.chunks(32).enumerate() {
+                    // big containers: the exact-limit CheckFirst mode differs from the default one only in
+                    // the length check; it gets every fourth group of positions
+                    if big && mode == Mode::CheckFirstExact && gi % 4 != (base.id as usize) % 4 {
+                        continue;
+                    }
+                    if !ctx.mine() {
+                        continue;
+                    }
+                    describe_case(&format!("C03 flips {} {} bytes {}..", base.label(), mode.name(), group[0]));
+                    for &p in group {
+                        let region: &'static str = if p < base.hdr_len && base.framing != Framing::Partial {
+                            "packet-header"
+                        } else if base.framing == Framing::Partial {
+                            "partial-framed"
+                        } else {
+                            base.region_of(p - base.hdr_len)
+                        };
+                        acc.s(if fam == "v1" { "v1.flip-regions" } else { "v2.flip-regions" }, region);
+                        ctx.cover(&(base.id, mode, "flip", p));
+                        for bit in 0..8u8 {
+                            let v = p * 8 + bit as usize;
+                            let desc = || format!("flip bit {bit} of message octet {p} ({region})");
+                            for pat in pat_for(&pats, small, v, big) {
+                                let t = Trial { base, mode, kind: "flip", desc: &desc, pat, probe: v as u64 % probe_every == 0 };
+                                if msg_level {
+                                    scratch[p] ^= 1 << bit;
+                                    try_msg(ctx, &mut acc, &t, &scratch, v as u64);
+                                    scratch[p] ^= 1 << bit;
+                                }
+                                if direct_level && p >= base.hdr_len {
+                                    let q = p - base.hdr_len;
+                                    bscratch[q] ^= 1 << bit;
+                                    try_direct(ctx, &mut acc, &t, &bscratch, v as u64);
+                                    bscratch[q] ^= 1 << bit;
+                                }
+                            }
+                        }
+                    }
+                    acc.flush_as(ctx, &format!("{fam}.flip.{}", if base.msg.len() > 2000 { "big" } else { "small" }));
+                }
+            }
+
+            // ---- B: every other value of the one-octet header fields; salt octets
+            if base.framing != Framing::Partial {
+                let fields: &[(usize, &'static str)] = match base.cfg {
+                    Cfg::V1 { .. } => &[(0, "version")],
+                    Cfg::V2 { .. } => &[(0, "version"), (1, "cipher"), (2, "aead"), (3, "chunk-size")],
+                };
+                // all consumer patterns for three sizes per configuration, a rotating one elsewhere
+                let all = small && (base.inner.len() <= 9 || base.inner.len() == c + 1 || base.inner.len() == 2 * c || fam == "v1");
+                for (off, name) in fields {
+                    if !ctx.mine() {
+                        continue;
+                    }
+                    describe_case(&format!("C03 field {} {} {}", name, base.label(), mode.name()));
+                    let mut b = base.body.clone();
+                    for val in 0..=255u8 {
+                        if val == base.body[*off] {
+                            continue;
+                        }
+                        b[*off] = val;
+                        ctx.cover(&(base.id, mode, "field", *off, val));
+                        acc.s("field.values-swept", format!("{fam}.{name}"));
+                        let desc = || format!("{name} octet {:#04x} -> {val:#04x}", base.body[*off]);
+                        let m = reframe(&b);
+                        for pat in pat_for(&pats, all, val as usize, big) {
+                            let t = Trial { base, mode, kind: "field", desc: &desc, pat, probe: val % 16 == 0 };
+                            if msg_level {
+                                try_msg(ctx, &mut acc, &t, &m, val as u64);
+                            }
+                            try_direct(ctx, &mut acc, &t, &b, val as u64);
+                        }
+                    }
+                    acc.flush_as(ctx, &format!("{fam}.field.{}", if base.msg.len() > 2000 { "big" } else { "small" }));
+                }
+                if let Cfg::V2 { .. } = base.cfg {
+                    if ctx.mine() {
+                        describe_case(&format!("C03 salt {} {}", base.label(), mode.name()));
+                        let mut rng = ctx.rng("salt", base.id as u64);
+                        let mut b = base.body.clone();
+                        for off in 4..36 {
+                            for k in 0..2 {
+                                let mut val: u8 = rng.gen();
+                                if val == base.body[off] {
+                                    val = val.wrapping_add(1);
+                                }
+                                b[off] = val;
+                                ctx.cover(&(base.id, mode, "salt", off, k));
+                                let desc = || format!("salt octet {} -> {val:#04x}", off - 4);
+                                let m = reframe(&b);
+                                for pat in pat_for(&pats, false, off + k, big) {
+                                    let t = Trial { base, mode, kind: "field", desc: &desc, pat, probe: false };
+                                    if msg_level {
+                                        try_msg(ctx, &mut acc, &t, &m, (off + k) as u64);
+                                    }
+                                    try_direct(ctx, &mut acc, &t, &b, (off + k) as u64);
+                                }
+                                b[off] = base.body[off];
+                            }
+                        }
+                        acc.flush_as(ctx, &format!("{fam}.salt.{}", if base.msg.len() > 2000 { "big" } else { "small" }));
+                    }
+                }
+            }
+
+            // ---- C: truncation at every offset: body re-framed, and the raw byte stream
+            {
+                let mut rng = ctx.rng("trunc-pos", base.id as u64);
+                if base.framing != Framing::Partial {
+                    let pos = positions(base.body.len(), plan.exhaustive_upto, &boundaries_of(base, false), &mut rng, plan.random_positions, if big { 16 } else { 24 });
+                    if pos.len() == base.body.len() {
+                        acc.s("trunc.exhaustive", format!("{}/{}", base.cfg.label(), base.size_class));
+                    }
+                    for group in pos.chunks(64) {
+                        if !ctx.mine() {
+                            continue;
+                        }
+                        describe_case(&format!("C03 trunc-reframed {} {} at {}..", base.label(), mode.name(), group[0]));
+                        for &tl in group {
+                            ctx.cover(&(base.id, mode, "trunc", tl));
+                            let desc = || format!("container body truncated to {tl} of {} octets, packet re-framed", base.body.len());
+                            let b = &base.body[..tl];
+                            let m = reframe(b);
+                            for pat in pat_for(&pats, small, tl, big) {
+                                let t = Trial { base, mode, kind: "trunc", desc: &desc, pat, probe: tl % 8 == 0 };
+                                if msg_level {
+                                    try_msg(ctx, &mut acc, &t, &m, tl as u64);
+                                }
+                                if tl >= 1 {
+                                    try_direct(ctx, &mut acc, &t, b, tl as u64);
+                                }
+                            }
+                        }
+                        acc.flush_as(ctx, &format!("{fam}.trunc.{}", if base.msg.len() > 2000 { "big" } else { "small" }));
+                    }
+                }
+                if msg_level {
+                    let pos = positions(base.msg.len(), plan.exhaustive_upto, &boundaries_of(base, true), &mut rng, plan.random_positions, if big { 16 } else { 24 });
+                    for group in pos.chunks(64) {
+                        if !ctx.mine() {
+                            continue;
+                        }
+                        describe_case(&format!("C03 trunc-raw {} {} at {}..", base.label(), mode.name(), group[0]));
+                        for &tl in group {
+                            ctx.cover(&(base.id, mode, "trunc-raw", tl));
+                            let desc = || format!("raw message truncated to {tl} of {} octets", base.msg.len());
+                            for pat in pat_for(&pats, small, tl, big) {
+                                let t = Trial { base, mode, kind: "trunc-raw", desc: &desc, pat, probe: tl % 8 == 0 };
+                                try_msg(ctx, &mut acc, &t, &base.msg[..tl], tl as u64);
+                            }
+                        }
+                        acc.flush_as(ctx, &format!("{fam}.trunc-raw.{}", if base.msg.len() > 2000 { "big" } else { "small" }));
+                    }
+                }
+            }
+
+            // ---- D: appended octets inside the re-framed container
+            if base.framing != Framing::Partial && ctx.mine() {
+                describe_case(&format!("C03 append {} {}", base.label(), mode.name()));
+                let mut rng = ctx.rng("append", base.id as u64);
+                for (k, (d, b)) in appendices(base, &mut rng).into_iter().enumerate() {
+                    ctx.cover(&(base.id, mode, "append", k));
+                    let desc = || d.clone();
+                    let m = reframe(&b);
+                    for pat in pat_for(&pats, !big, k, big) {
+                        let t = Trial { base, mode, kind: "append", desc: &desc, pat, probe: true };
+                        if msg_level {
+                            try_msg(ctx, &mut acc, &t, &m, k as u64);
+                        }
+                        try_direct(ctx, &mut acc, &t, &b, k as u64);
+                    }
+                }
+                acc.flush_as(ctx, &format!("{fam}.append.{}", if base.msg.len() > 2000 { "big" } else { "small" }));
+            }
+
+            // ---- E: AEAD chunk drop / duplicate / permute / tag swaps (v2); CFB block splices (v1)
+            if base.framing != Framing::Partial && ctx.mine() {
+                describe_case(&format!("C03 chunk/splice {} {}", base.label(), mode.name()));
+                let mut rng = ctx.rng("splice", base.id as u64);
+                let (kind, ops): (&'static str, Vec<(String, Vec<u8>)>) = match base.cfg {
+                    Cfg::V2 { .. } => ("chunks", chunk_ops(base)),
+                    Cfg::V1 { .. } => ("splice", cfb_splices(base, &mut rng)),
+                };
+                for (k, (d, b)) in ops.into_iter().enumerate() {
+                    ctx.cover(&(base.id, mode, kind, k));
+                    if d.starts_with("permute") {
+                        acc.t("chunks.permutations");
+                        acc.s("chunks.permuted-counts", chunk_idx_name((base.chunks.len() - 1) as u64));
+                    }
+                    let desc = || d.clone();
+                    let m = reframe(&b);
+                    for pat in pat_for(&pats, !big, k, big) {
+                        let t = Trial { base, mode, kind, desc: &desc, pat, probe: true };
+                        if msg_level {
+                            try_msg(ctx, &mut acc, &t, &m, k as u64);
+                        }
+                        try_direct(ctx, &mut acc, &t, &b, k as u64);
+                    }
+                }
+                acc.flush_as(ctx, &format!("{fam}.chunks-splice.{}", if base.msg.len() > 2000 { "big" } else { "small" }));
+            }
+
+            // ---- F: packet header: every other tag, wrong declared lengths; equivalent re-encodings as control
+            if base.framing == Framing::Fixed && ctx.mine() {
+                describe_case(&format!("C03 header {} {}", base.label(), mode.name()));
+                for tag in 0..64u8 {
+                    if tag == 18 {
+                        continue;
+                    }
+                    let mut m = base.msg.clone();
+                    m[0] = 0xC0 | tag;
+                    ctx.cover(&(base.id, mode, "hdr-tag", tag));
+                    let desc = || format!("packet tag 18 -> {tag}");
+                    for pat in pat_for(&pats, false, tag as usize, big) {
+                        let t = Trial { base, mode, kind: "header", desc: &desc, pat, probe: false };
+                        try_msg(ctx, &mut acc, &t, &m, tag as u64);
+                    }
+                }
+                let n = base.body.len() as i64;
+                for d in [-23i64, -22, -17, -16, -2, -1, 1, 2, 16, 22, 8192] {
+                    let decl = n + d;
+                    if decl < 0 {
+                        continue;
+                    }
+                    let mut m = vec![0xC0 | 18];
+                    m.extend(rfc::frame::new_len(decl as u32, &LenForm::NewMin));
+                    m.extend_from_slice(&base.body);
+                    ctx.cover(&(base.id, mode, "hdr-len", d));
+                    let desc = || format!("declared packet length {decl} instead of {n}");
+                    for pat in pat_for(&pats, false, (d + 30) as usize, big) {
+                        let t = Trial { base, mode, kind: "header", desc: &desc, pat, probe: false };
+                        try_msg(ctx, &mut acc, &t, &m, (d + 30) as u64);
+                    }
+                }
+                // control (NOT a tamper in the sense of the property): the same length written in the
+                // 5-octet / 2-octet form leaves the container unchanged and must still decrypt
+                let mut forms = vec![LenForm::New5];
+                if (192..8384).contains(&base.body.len()) {
+                    forms.push(LenForm::New2);
+                }
+                for f in forms {
+                    if let Some(m) = rfc::frame::frame(18, &base.body, &f) {
+                        if m == base.msg {
+                            continue;
+                        }
+                        ctx.eval();
+                        match core::guard(|| run_message(&m, base, mode, &Consume::ToEnd, false, None)) {
+                            Ok(Outcome::Read(d, _)) if d.err.is_none() && d.data == base.payload => acc.t("control.equivalent-length-encoding.decrypts"),
+                            _ => {
+                                acc.t("control.equivalent-length-encoding.rejected");
+                                ctx.note(format!("control: {:?} length form of an untampered SEIPD packet was rejected ({})", f, base.label()));
+                            }
+                        }
+                    }
+                }
+                acc.flush_as(ctx, &format!("{fam}.header.{}", if base.msg.len() > 2000 { "big" } else { "small" }));
+                if sampled < 2 && mode != Mode::CheckFirstExact {
+                    sampled += 1;
+                    ctx.sample(json!({
+                        "config": base.cfg.label(), "mode": base.mode_name(mode), "inner_stream_len": base.inner.len(), "size_class": base.size_class,
+                        "message": hexs(&base.msg), "session_key": hex::encode(&base.key),
+                        "tampers": "every bit flip, field value, truncation offset, append, chunk/block splice, header change of this message",
+                        "regions": base.regions.iter().map(|(s, e, n)| format!("{n}:{s}..{e}")).collect::<Vec<_>>(),
+                    }));
+                }
+            }
+        }
+    }
+    acc.flush(ctx);
+    ctx.seen("shard-cpu-s", format!("{}:{:.0}", ctx.shard, core::thread_cpu_s()));
+    ctx.exhaustive = true;
 }
